@@ -177,6 +177,23 @@ def h_expr_tokens(n: int, m: int, op: int, fn: str):
     return None
 
 
+BOUNDARY_OPERANDS = ["0", "1", "7", "10", "99999999999999", "100000000000000", "1e14", "1e15", "1e308", "1e309", "1.5e308", "1e400", "1e401",
+                     "1e-400", ".5", "2.5", "9" * 20, "9" * 320, "-1", "1e", "e1"]
+BOUNDARY_OPS = ["*", "+", "-", "/", "^", "mod", "round", "e", "", "div", "<", "and"]
+
+
+def h_expr_boundary(a: int, b: int, op: int, fn: str):
+    """#expr / #ifexpr on 'A <op> B' with operands from a vocabulary around the float range, the 1e14 formatting threshold and
+    the digit limits.  Floats are C doubles: CrossHair models them as reals, so these boundaries are enumerated (pinned), not solved for."""
+    from vlib.sym import untraced
+
+    A = BOUNDARY_OPERANDS[choose(a, len(BOUNDARY_OPERANDS))]
+    B = BOUNDARY_OPERANDS[choose(b, len(BOUNDARY_OPERANDS))]
+    O = BOUNDARY_OPS[choose(op, len(BOUNDARY_OPS))]
+    text = (A + " " + O + " " + B) if O else A
+    return untraced(call_magic, fn, [text, "yes", "no"] if fn == "#IFEXPR" else [text])
+
+
 def twin_pad(n: int):
     """Reachability: PADLEFT does pad (the guarded range is exercised and the oracle sees the output)."""
     assume(0 <= n <= 20)
@@ -238,6 +255,7 @@ def build(tier: str) -> CheckSpec:
             cubes.append(Cube(f"magic {n}({label})", h_magic, params, {"name": n, "k": k, "sh0": a, "sh1": b, "slen": slen},
                               timeout=tmo, per_path_timeout=10, group=n))
     for fn in ("#EXPR", "#IFEXPR"):
+        cubes.append(Cube(f"{fn} boundary operands", h_expr_boundary, {"a": int, "b": int, "op": int}, {"fn": fn}, timeout=200 if q else 900, group=fn))
         cubes.append(Cube(f"{fn} n <op> m (token level)", h_expr_tokens, {"n": int, "m": int, "op": int}, {"fn": fn}, timeout=120 if q else 600, per_path_timeout=20, group=fn))
     cubes.append(Cube("universes of 2 templates", h_universe, {"b0": int, "b1": int, "b2": int}, {"ntempl": 2}, timeout=600, group="recursion"))
     if not q:
@@ -253,6 +271,7 @@ def build(tier: str) -> CheckSpec:
         bounds={"registered names (from dir(MagicResolver) at run time)": len(names), "argument count": f"0..{maxk}",
                 "argument shapes": ARG_SHAPES, "free strings": f"<= {slen} characters, any code point", "numerals": "rendered from symbolic integers 0 <= n < 10^5 (10^6 in the #expr token cubes)",
                 "work bound": f"{WORK_BASE} + {WORK_PER_CHAR} * (name + argument length) for loop trip counts in magics.py and output length",
+                "#expr boundary operands": "A <op> B over %d operands x %d operators (pinned)" % (len(BOUNDARY_OPERANDS), len(BOUNDARY_OPS)),
                 "template universes": "2 templates (quick) / 3 (thorough), body = two pieces of 8, every call graph incl. cycles and missing targets"},
         stubs=["expr.tokenize (regex) replaced by its token list in the '#EXPR n <op> m' cubes; expr._cache cleared per path", "templ/evaluate.pyx, nodes.pyx, node.pyx loaded from source as Python (vlib/pyxload.py)", "`range` in the magics namespace guarded by the work bound",
                "expr._cache (memo of evaluated expressions) cleared before and after every call", "expander stub with recursion_count/recursion_limit for ArgumentList (string arguments are not flattened)", "wikidb = None for #ifexist"],
